@@ -312,6 +312,29 @@ def run_history(fl: Fleet, hist, with_keys=True, stats=None, key_table=None):
                 for v in r["violations"]:
                     viol.append({"class": v["class"], "op_index": idx,
                                  "detail": v["detail"]})
+                smp = r.get("sample")
+                if smp is not None and len(fl.workers) > 1:
+                    # the last transient graph of the run, keyed by a peer
+                    # that builds it from scratch
+                    w2 = (w + 1) % len(fl.workers)
+                    ref = fl.workers[w2].call(
+                        "recipe_key", recipe=hist["recipes"][op["recipe"]],
+                        salt=smp["salt"])
+                    bump("churn_keys_compared_with_peer")
+                    if ref["content"] == smp["content"] and \
+                            ref["key"] != smp["key"]:
+                        viol.append({
+                            "class": "key-differs-for-same-structure-across-"
+                                     "processes-or-history",
+                            "op_index": idx,
+                            "detail": f"transient graph (salt {smp['salt']}): "
+                                      f"{smp['key']} after churn in worker {w}, "
+                                      f"{ref['key']} built from scratch in "
+                                      f"worker {w2}"})
+                    elif ref["content"] != smp["content"]:
+                        viol.append({
+                            "class": "HARNESS:recipe-builds-differently",
+                            "op_index": idx, "detail": "churn sample"})
             elif kind == "junk":
                 wk.call("junk", seed=op["seed"], n=op["n"], keep=op["keep"])
                 bump("junk_ops")
